@@ -87,3 +87,98 @@ Lemma find' : forall sp cur, deliverable cur -> forallb is_creation cur = true -
      matchingb (trun t_empty cur) sp u c = true /\
      Forall2 (fun s p => fst p = c /\ sget (t_svcs (trun t_empty cur)) u s = Some p) (sp_svcs sp) ids).
 Proof. exact find_current_ok. Qed.
+
+(* ------------------------------------------------------------------ against the whole bus *)
+From Aldrin Require Import ClientFold.Bus ClientFold.BusProofs ClientFold.LifetimeBusProofs.
+
+Lemma deliverable_bus' : forall fs pre hist cur,
+  bus_wf (pre ++ hist) -> snapshot_of fs (trun t_empty pre) cur ->
+  deliverable (delivered fs cur hist).
+Proof. intros fs pre hist cur W S. now destruct (delivered_ok fs pre hist cur W S). Qed.
+
+Lemma view_bus' : forall fs pre hist cur sp,
+  bus_wf (pre ++ hist) -> snapshot_of fs (trun t_empty pre) cur -> covers fs sp ->
+  exists e snap,
+    entry_run (entry_new sp) (delivered fs cur hist)
+      = Ok (e, snap ++ bus_transitions (trun t_empty pre) hist sp) /\
+    NoDup snap /\
+    (forall d, In d snap <->
+       exists u c, d = mkDev (sp_key sp) Created u c /\ bus_matchingb (trun t_empty pre) sp u c = true) /\
+    (forall u c, In (u, c) (entry_iter e) <-> bus_matchingb (trun t_empty (pre ++ hist)) sp u c = true) /\
+    NoDup (map fst (entry_iter e)) /\
+    (forall u c, bus_matchingb (trun t_empty (pre ++ hist)) sp u c = true ->
+       entry_object_id e u = Ok (Some c) /\
+       exists ids, entry_service_ids e u (sp_svcs sp) = Ok (Some ids) /\
+         Forall2 (fun s p => fst p = c /\ sget (t_svcs (trun t_empty (pre ++ hist))) u s = Some p)
+                 (sp_svcs sp) ids).
+Proof. exact view_bus. Qed.
+
+Lemma bus_transitions_exact' : forall pre ev sp u c,
+  bus_wf (pre ++ [ev]) -> (u, c) <> ev_obj ev ->
+  bus_matchingb (trun t_empty (pre ++ [ev])) sp u c = bus_matchingb (trun t_empty pre) sp u c.
+Proof.
+  intros pre ev sp u c W NE. unfold bus_wf in W. rewrite bus_wf_app in W.
+  apply andb_true_iff in W as [W1 W2]. cbn [bus_wf_from] in W2. rewrite andb_true_r in W2.
+  rewrite trun_app. cbn [trun fold_left]. apply bus_delta_frame; auto.
+  apply gwf_run; auto. apply gwf_empty.
+Qed.
+
+Lemma covers_discoverer' : forall sps sp, In sp sps -> covers (disc_filters (disc_new sps)) sp.
+Proof. exact covers_discoverer. Qed.
+
+Lemma wait_bus' : forall fs pre hist cur sp,
+  bus_wf (pre ++ hist) -> snapshot_of fs (trun t_empty pre) cur -> covers fs sp ->
+  (find_object sp (delivered fs cur hist) = Ok None /\
+   forall h1 h2, hist = h1 ++ h2 ->
+     forall u c, bus_matchingb (trun t_empty (pre ++ h1)) sp u c = false) \/
+  (exists u c ids h1 h2,
+     find_object sp (delivered fs cur hist) = Ok (Some (u, c, ids)) /\ hist = h1 ++ h2 /\
+     bus_matchingb (trun t_empty (pre ++ h1)) sp u c = true /\
+     Forall2 (fun s p => fst p = c /\ sget (t_svcs (trun t_empty (pre ++ h1))) u s = Some p)
+             (sp_svcs sp) ids).
+Proof. exact wait_bus. Qed.
+
+Lemma find_bus' : forall fs pre cur sp,
+  bus_wf pre -> snapshot_of fs (trun t_empty pre) cur -> covers fs sp ->
+  (find_object sp cur = Ok None /\ forall u c, bus_matchingb (trun t_empty pre) sp u c = false) \/
+  (exists u c ids,
+     find_object sp cur = Ok (Some (u, c, ids)) /\
+     bus_matchingb (trun t_empty pre) sp u c = true /\
+     Forall2 (fun s p => fst p = c /\ sget (t_svcs (trun t_empty pre)) u s = Some p) (sp_svcs sp) ids).
+Proof.
+  intros fs pre cur sp W S C.
+  assert (W' : bus_wf (pre ++ [])) by now rewrite app_nil_r.
+  destruct (wait_bus fs pre [] cur sp W' S C) as [[F H]|(u & c & ids & h1 & h2 & F & E & M & I)];
+    unfold delivered in F; cbn [filter] in F; rewrite app_nil_r in F.
+  - left. split; auto. intros u c. specialize (H [] [] eq_refl u c). now rewrite app_nil_r in H.
+  - right. symmetry in E. apply app_eq_nil in E as [-> ->]. rewrite app_nil_r in *. eauto 10.
+Qed.
+
+Lemma lifetime_bus' : forall u c pre h1 h2 cur,
+  bus_wf (pre ++ h1 ++ h2) -> snapshot_of [FObject (Some u)] (trun t_empty pre) cur ->
+  memb c (t_used_o (trun t_empty pre)) = true ->
+  exists st,
+    lt_run (lt_new u c) (lt_stream cur (filter (matches_filters [FObject (Some u)]) h1)) = LOk st /\
+    (lt_ended st = true <-> aget (t_objs (trun t_empty (pre ++ h1))) u <> Some c) /\
+    (lt_ended st = true -> aget (t_objs (trun t_empty (pre ++ h1 ++ h2))) u <> Some c).
+Proof. exact lifetime_bus. Qed.
+
+(* ------------------------------------------------------------------ the listener's bookkeeping *)
+From Aldrin Require Import ClientFold.Listener ClientFold.ListenerProofs.
+
+Lemma listener_current' : forall alive cur rest,
+  l_drain (S (length cur)) alive (l_start l_new SCurrent)
+          (BStarted SCurrent :: map BEvent cur ++ BCurrentFinished :: rest)
+  = (cur, mkL (Some SCurrent) 0 0 0 false, rest, PNone).
+Proof. exact drain_current. Qed.
+
+Lemma listener_all' : forall cur news,
+  l_drain (S (length cur + length news)) true (l_start l_new SAll)
+          (BStarted SAll :: map BEvent cur ++ BCurrentFinished :: map BEvent news)
+  = (cur ++ news, mkL (Some SAll) 0 0 0 false, [], PPending).
+Proof. exact drain_all. Qed.
+
+Lemma listener_stop' : forall alive evs rest,
+  l_drain (S (length evs)) alive (l_stop (mkL (Some SAll) 0 0 0 false)) (map BEvent evs ++ BStopped :: rest)
+  = (evs, l_new, rest, PNone).
+Proof. exact drain_stop. Qed.
